@@ -522,13 +522,37 @@ class Randomizer(RandIF):
 
     
     @staticmethod
-    def _abort_call(f):
-        """Lists drop the elements that were added for the aborted call"""
+    def _begin_call(f, visited=None):
+        """Lists forget the length recorded for an earlier call"""
+        if visited is None:
+            visited = set()
+        if id(f) in visited:
+            return
+        visited.add(id(f))
         if hasattr(f, "abort_randomize"):
-            f.abort_randomize()
+            f._call_len = None
         if hasattr(f, "field_l"):
             for c in f.field_l:
-                Randomizer._abort_call(c)
+                Randomizer._begin_call(c, visited)
+    
+    @staticmethod
+    def _abort_call(f, visited=None):
+        """Lists drop the elements that were added for the aborted call, 
+        and every field drops its solver handle"""
+        if visited is None:
+            visited = set()
+        if id(f) in visited:
+            return
+        visited.add(id(f))
+        if hasattr(f, "abort_randomize"):
+            f.abort_randomize()
+            f.size.dispose()
+        if hasattr(f, "field_l"):
+            for c in f.field_l:
+                Randomizer._abort_call(c, visited)
+        else:
+            # Drop the solver handle of the field
+            f.dispose()
     
     @staticmethod
     def do_randomize(
@@ -559,6 +583,9 @@ class Randomizer(RandIF):
                 
         completed = False
         try:
+            for fm in field_model_l:
+                Randomizer._begin_call(fm)
+                
             # First, invoke pre_randomize on all elements
             visited = []
             for fm in field_model_l:
@@ -632,7 +659,6 @@ class Randomizer(RandIF):
                 for fm in field_model_l:
                     Randomizer._abort_call(fm)
                     fm.set_used_rand(False, 0)
-                    fm.dispose()
 
         visited = [] 
         for fm in field_model_l:
